@@ -695,15 +695,15 @@ prop("C08",
 
 
 def _lean_composition_lemmas(tier, seed):
-    """Appendix A.1/A.5 (whole-graph statements from the per-node contracts),
-    machine-checked: lemmas/Memo.lean is compiled by Lean 4 (+Mathlib) in the
+    """Appendix A.1, A.3, A.4/A.6, A.5 (whole-graph statements from the
+    per-node contracts), machine-checked: lemmas/Memo.lean is compiled by Lean 4 (+Mathlib) in the
     thorough tier.  A failure here is a fault of the argument, not a property
     violation."""
     import os
     import re
     import subprocess
     import time
-    name = "lean-composition-lemmas-A1-A5"
+    name = "lean-composition-lemmas"
     src = os.path.join(os.path.dirname(os.path.dirname(
         os.path.abspath(__file__))), "lemmas", "Memo.lean")
     theorems = re.findall(r"^theorem (\S+)", open(src).read(), re.M)
@@ -736,5 +736,5 @@ def _lean_composition_lemmas(tier, seed):
                 axioms=sorted(set(axioms)))
 
 
-for _p in ("C13", "C20"):
+for _p in ("C13", "C20", "C04", "C05"):
     EXTRAS.setdefault(_p, []).append(_lean_composition_lemmas)
